@@ -117,7 +117,20 @@ def run(ctx: Ctx):
             # the dispatching chain is the one with the most branches
             best = max(chains, key=lambda s: len(q.if_chain(s)[0]))
             _, els = q.if_chain(best)
-            ctx.check(bool(els) and isinstance(els[-1], ast.Raise), "DP-CLOSED", fi, "unknown gate classes raise", "", "a gate class without an export rule is dropped silently from the exported object", best)
+            if len(chains) > 1 and not best.orelse:
+                # guard-clause style: `if isinstance(..): ...; continue` one after the other, then the default
+                _, els = q.dispatch_chain(loop.body)
+            if els is None:
+                ctx.undecided(fi.short, "the class dispatch in the gate loop is neither one if/elif chain nor a sequence of ifs that leave the iteration")
+            elif bool(els) and isinstance(els[-1], ast.Raise):
+                ctx.ok("DP-CLOSED", fi, "unknown gate classes raise", "", best)
+            elif [
+                n for n in ast.walk(loop) if isinstance(n, ast.Raise) and not any(pol and isinstance(e, ast.Call) and isinstance(e.func, ast.Name) and e.func.id in ("isinstance", "issubclass") for e, pol in guard_facts(fi, n))
+            ]:
+                # `if not hasattr(qc, name): raise ...` followed by the generic rule: the raise is on the default path
+                ctx.ok("DP-CLOSED", fi, "unknown gate classes raise", "a raise that no class test guards", best)
+            else:
+                ctx.check(False, "DP-CLOSED", fi, "unknown gate classes raise", "", "a gate class without an export rule is dropped silently from the exported object", best)
             # controlled gates: controls = w[0:-1], target = w[-1]
             for c in q.calls(loop):
                 if isinstance(c.func, ast.Attribute) and c.func.attr == "mcx" and len(c.args) == 2:
